@@ -1,5 +1,5 @@
 use super::{NonDigitName, SafeName};
-use crate::ast::{indexes::AstType, Ast, BasicType};
+use crate::ast::{indexes::AstType, ArrayType, Ast, BasicType};
 use crate::impls::template::*;
 use crate::Result;
 
@@ -90,9 +90,14 @@ pub fn print_impl_wire_size<W: std::fmt::Write, T: FromTemplate>(
                         writeln!(w, "self.0.wire_size()")?;
 
                         // If the target is opaque, it needs padding, and a
-                        // length prefix adding.
+                        // length prefix adding - except for fixed-length
+                        // opaques, which have no length prefix on the wire.
                         if let BasicType::Opaque = v.target {
-                            writeln!(w, "+ pad_length(self.0.wire_size()) + 4")?;
+                            if let ArrayType::FixedSize(_, _) = v.alias {
+                                writeln!(w, "+ pad_length(self.0.wire_size())")?;
+                            } else {
+                                writeln!(w, "+ pad_length(self.0.wire_size()) + 4")?;
+                            }
                         }
 
                         Ok(())
